@@ -12,6 +12,9 @@
 //!   MODEL = coq/Model/Unified.v unified_run over the packet-level TCP analyzer model and the stateless TLS path
 //!   (coq/Model/AnalyzerReports.v); run = HuginnNet::analyze_tcp with the per-packet injected clock; own rendering:
 //!   packets joined by ';', the 8 groups by '^': signature Display | <mtu>~<M+link hex|X|D> | uptime token | TLS token | '-'
+//! kind U (fully concrete composition, HTTP may be enabled):  <t><h><l><m><d> U <cap> <t ms>:<frame hex> ...
+//!   as K with the packet-level HTTP analyzer model as the HTTP stage (coq/Extract/EC20.v); the two HTTP groups print
+//!   '-' | Q.<..> | R.<..> (HTTP/1, EC09 token) | Q2 <..> | R2 <..> (HTTP/2, coq/Model/HttpH2.v without lang)
 //! result: one token per packet joined by ';' : 8 groups joined by ',' each '-' or <sig hex>~<match>
 #[path = "../../c07/src/concrete.rs"]
 #[allow(dead_code)]
@@ -169,6 +172,41 @@ fn unified_tokens(cfgbits: &str, frames: &[Vec<u8>], db: &Database) -> String {
 
 thread_local! { static DB: Database = Database::load_default().expect("db"); }
 
+// ---- HTTP groups of kind U (HTTP/1: EC09 token; HTTP/2: coq/Model/H2Show.v show_req_obs_nl / show_resp) ----
+fn escs(s: &[u8]) -> String {
+    let mut o = String::new();
+    for &b in s { if b.is_ascii_alphanumeric() || b == b'-' || b == b'.' || b == b'_' || b == b'/' { o.push(b as char) } else { o.push_str(&format!("%{:02x}", b)) } }
+    o
+}
+fn escs_opt(s: &Option<String>) -> String { match s { Some(x) => escs(x.as_bytes()), None => "~".into() } }
+fn h2_headers(hs: &[huginn_net_http::http_common::HttpHeader]) -> String {
+    hs.iter().map(|h| format!("{}:{}:{}", h.position, escs(h.name.as_bytes()), escs_opt(&h.value))).collect::<Vec<_>>().join(",")
+}
+fn h1_headers(hs: &[huginn_net_http::http_common::HttpHeader]) -> String {
+    hs.iter().map(|h| format!("{}={}", hex(h.name.as_bytes()), hex(h.value.as_deref().unwrap_or("").as_bytes()))).collect::<Vec<_>>().join(",")
+}
+fn h1ver(v: &huginn_net_http::http::Version) -> &'static str {
+    use huginn_net_http::http::Version;
+    match v { Version::V10 => "10", Version::V11 => "11", Version::V20 => "20", Version::V30 => "30", _ => "any" }
+}
+fn u_req_token(o: &huginn_net_http::ObservableHttpRequest) -> String {
+    if o.matching.version == huginn_net_http::http::Version::V20 {
+        format!("Q2 {} {} hdr={} cookies={} referer={} ua={} sig={}", escs(o.method.as_deref().unwrap_or("").as_bytes()), escs(o.uri.as_deref().unwrap_or("").as_bytes()),
+            h2_headers(&o.headers),
+            o.cookies.iter().map(|c| format!("{}:{}:{}", c.position, escs(c.name.as_bytes()), escs_opt(&c.value))).collect::<Vec<_>>().join(","),
+            escs_opt(&o.referer), escs_opt(&o.user_agent), escs(o.matching.to_string().as_bytes()))
+    } else {
+        format!("Q.{}.{}.{}.{}", hex(o.method.as_deref().unwrap_or("").as_bytes()), hex(o.uri.as_deref().unwrap_or("").as_bytes()), h1ver(&o.matching.version), h1_headers(&o.headers))
+    }
+}
+fn u_resp_token(o: &huginn_net_http::ObservableHttpResponse) -> String {
+    if o.matching.version == huginn_net_http::http::Version::V20 {
+        format!("R2 {} hdr={} sig={}", o.status_code.unwrap_or(0), h2_headers(&o.headers), escs(o.matching.to_string().as_bytes()))
+    } else {
+        format!("R.{}.{}.{}", h1ver(&o.matching.version), o.status_code.unwrap_or(0), h1_headers(&o.headers))
+    }
+}
+
 fn k_tokens(cfgbits: &str, cap: usize, evs: &[(u64, Vec<u8>)], db: &Database) -> String {
     let b: Vec<bool> = cfgbits.chars().map(|c| c == '1').collect();
     let cfg = huginn_net::AnalysisConfig { tcp_enabled: b[0], http_enabled: b[1], tls_enabled: b[2], matcher_enabled: b[3] };
@@ -189,8 +227,8 @@ fn k_tokens(cfgbits: &str, cap: usize, evs: &[(u64, Vec<u8>)], db: &Database) ->
             r.tcp_mtu.as_ref().map(|x| format!("{}~{}", x.mtu, link(x))).unwrap_or_else(|| "-".into()),
             r.tcp_client_uptime.as_ref().map(|x| concrete::up(x)).unwrap_or_else(|| "-".into()),
             r.tcp_server_uptime.as_ref().map(|x| concrete::up(x)).unwrap_or_else(|| "-".into()),
-            if r.http_request.is_some() { "!http".into() } else { "-".into() },
-            if r.http_response.is_some() { "!http".into() } else { "-".into() },
+            r.http_request.as_ref().map(|x| u_req_token(&x.sig)).unwrap_or_else(|| "-".into()),
+            r.http_response.as_ref().map(|x| u_resp_token(&x.sig)).unwrap_or_else(|| "-".into()),
             r.tls_client.as_ref().map(|x| concrete::tls_seq_token(x)).unwrap_or_else(|| "-".into()),
         ];
         toks.push(gs.join("^"));
@@ -200,7 +238,7 @@ fn k_tokens(cfgbits: &str, cap: usize, evs: &[(u64, Vec<u8>)], db: &Database) ->
 
 fn run(line: &str) -> String {
     let toks: Vec<&str> = line.split(' ').collect();
-    if toks[1] == "K" {
+    if toks[1] == "K" || toks[1] == "U" {
         let cap: usize = toks[2].parse().unwrap();
         let evs: Vec<(u64, Vec<u8>)> = toks[3..].iter().map(|t| { let (a, b) = t.split_once(':').unwrap(); (a.parse().unwrap(), unhex_or_dash(b)) }).collect();
         return DB.with(|db| k_tokens(toks[0], cap, &evs, db));
@@ -354,6 +392,34 @@ fn gen(r: &mut Rng, tier: &Tier, out: &mut Vec<String>) {
         let cfgbits = *r.pick(&["10111", "10111", "10111", "10101", "10101", "10100", "00111", "00101", "10011", "10001", "10110"]);
         let cap = if case % 8 == 3 { 1 + r.below(4) as usize } else { 1000 };
         let mut line = format!("{} K {}", cfgbits, cap);
+        for (f, t) in &tr { line.push_str(&format!(" {}:{}", t, hex_or_dash(f))); }
+        out.push(line);
+    }
+    // kind U: fully concrete composition incl. the HTTP stage (HTTP/1 exchanges and HTTP/2 connection starts)
+    for case in 0..tier.scale(150, 1500) {
+        let n = 1 + r.below(4) as usize;
+        let mut conns: Vec<Vec<cflow::Frame>> = Vec::new();
+        for j in 0..n {
+            let ck = *r.pick(&[0u64, 3, 3, 1, 0, 2]);
+            let sp = cflow::ConnSpec::new(ck, r.chance(1, 4), (case as u64 * 17 + j as u64 * 41) % 4000 + j as u64 * 6000);
+            let t0 = 1_000_000 + r.below(1000);
+            conns.push(cflow::connection(r, &sp, t0));
+        }
+        if case % 7 == 6 { for c in conns.iter_mut() { for (f, _) in c.iter_mut() { if r.chance(1, 5) { concrete::mutate_headers(r, f); } } } }
+        let mut tr: Vec<cflow::Frame> = cflow::interleave(r, &conns, case % 5 == 0).into_iter().map(|(_, f)| f).collect();
+        // junk that cannot put non-ASCII bytes into an HTTP/1 stream (the HTTP/1 recogniser's domain, see props/C07.json):
+        // short random bytes (no room for IP + TCP), a truncated copy of a frame, a copy with the UDP protocol number
+        if r.chance(1, 4) {
+            let j = match r.below(3) {
+                0 => { let n = r.below(34) as usize; r.bytes(n) }
+                1 => { let f = tr[r.below(tr.len() as u64) as usize].0.clone(); let n = r.below(f.len() as u64 + 1) as usize; f[..n].to_vec() }
+                _ => { let mut f = tr[r.below(tr.len() as u64) as usize].0.clone(); if f.len() > 23 && f[12] == 0x08 { f[23] = 17; } f }
+            };
+            let pos = r.below(tr.len() as u64 + 1) as usize; tr.insert(pos, (j, 1_000_500));
+        }
+        let cfgbits = *r.pick(&["11111", "11111", "01011", "01000", "11011", "01101", "11101", "11100", "01111", "10111"]);
+        let cap = if case % 8 == 3 { 1 + r.below(4) as usize } else { 1000 };
+        let mut line = format!("{} U {}", cfgbits, cap);
         for (f, t) in &tr { line.push_str(&format!(" {}:{}", t, hex_or_dash(f))); }
         out.push(line);
     }
